@@ -22,8 +22,12 @@ def template_universe(draw):
     for nm in names:
         body = "".join(l for _, l in draw(S.soup(12)))
         out[nm] = body
-    if "Loop" in out and draw(st.booleans()):
-        out["Loop"] += "{{Loop}}{{T}}"
+    if "Loop" in out:
+        # every shape of recursion: single, double (fan-out per level), mutual, through an argument
+        out["Loop"] = draw(st.sampled_from([out["Loop"] + "{{Loop}}{{T}}", "{{Loop}}{{Loop}}", "x{{Loop}}", "{{T2}}{{T2}}", "{{Loop|{{Loop}}}}",
+                                            "{{Loop}}{{Loop}}{{Loop}}", out["Loop"]]))
+        if out["Loop"].startswith("{{T2}}"):
+            out["T2"] = "{{Loop}}" + out.get("T2", "")[:20]
     if "Dbl" in out and draw(st.booleans()):
         out["Dbl"] = "{{{1}}}{{{1}}}" + out["Dbl"][:20]
     return out
